@@ -221,7 +221,7 @@ def generate(seed, tier, index):
                 ops += [["poison", pb]]   # always: the heap the engine objects land on is part of the case
                 if pb:
                     faults.add("heap_poison")
-                ops += [["simulate_script", {"slices": slices, "ms": 1000}, "v%d_%d" % (v, rep)]]
+                ops += [["simulate_script", {"slices": slices, "ms": 1000, "progress": rf.chance(0.3)}, "v%d_%d" % (v, rep)]]
                 faults.add("simulate_script_loop")
                 if seedless or rf.chance(0.3):
                     if rf.chance(0.4):
@@ -313,6 +313,11 @@ def check(case, results):
         same = (ev["t"] == ref["t"] and ev["data"] == ref["data"])
         if "raw_t" in ev and "raw_t" in ref and same:
             same = (ev["raw_t"] == ref["raw_t"] and ev["raw_x"] == ref["raw_x"])
+        sidx_ = case["lifetimes"][li]["episodes"][e]["script"]
+        if same and sidx_ == 0 and ev.get("stored") and ref.get("stored") and ev["stored"] != ref["stored"]:
+            viol.append({"class": "violation", "oracle": "C08.stored-script", "lifetime": li, "episode": e, "op": i,
+                         "detail": "the script and system stored in the trajectory are not the ones it was computed from "
+                                   "(their physical content differs from that stored by the reference run of the same script)"})
         if not same:
             viol.append({"class": "violation", "oracle": "C08.bytes-equal", "lifetime": li, "episode": e, "op": i,
                          "detail": "trajectory bytes differ from the iterate()-only reference lifetime "
